@@ -293,10 +293,14 @@ func setupRoot() string {
 		os.WriteFile(filepath.Join(root, "path_params", ".gitkeep"), nil, 0o644)
 		os.WriteFile(filepath.Join(root, "flows", ".gitkeep"), nil, 0o644)
 	}
-	os.WriteFile(filepath.Join(root, "gateway_config.yaml"), []byte("allowed_domains: []\n"), 0o644)
-	// the stock metrics.yaml without the two duration histograms (they start a ticker
-	// goroutine that never ends, which a synctest bubble cannot contain)
-	os.WriteFile(filepath.Join(root, "metrics.yaml"), []byte(metricsYAML), 0o644)
+	if initial != 2 {
+		os.WriteFile(filepath.Join(root, "gateway_config.yaml"), []byte("allowed_domains: []\n"), 0o644)
+		// the stock metrics.yaml without the two duration histograms (they start a ticker
+		// goroutine that never ends, which a synctest bubble cannot contain)
+		os.WriteFile(filepath.Join(root, "metrics.yaml"), []byte(metricsYAML), 0o644)
+	}
+	// (initial state 2: neither a gateway configuration file nor a user metrics file exists
+	// yet; a payload may bring them)
 	eng.Point(root, "")
 	environment.SetGatewayConfigPath(filepath.Join(root, "gateway_config.yaml"))
 	environment.SetMetricsConfigFilePath(filepath.Join(root, "metrics.yaml"))
@@ -321,6 +325,20 @@ func runCase(t *testing.T, pc payloadCase, endpoint string, vosFail [2]int64, ad
 		rd, err := routing.VerifNewHandlingDataManager()
 		if err != nil {
 			panic("manager did not start: " + err.Error())
+		}
+		if initial == 3 {
+			// initial state 3: the gateway has already completed one update since it started
+			pre, _ := json.Marshal(map[string]any{"flows": map[string]string{"old.yaml": b64(respFlow("fold", "h.com/old/*", 418)), "pre.yaml": b64(respFlow("fpre", "h.com/pre/*", 417))}})
+			rec := httptest.NewRecorder()
+			rq := httptest.NewRequest(http.MethodPut, "/"+endpoint, bytes.NewReader(pre))
+			if endpoint == "configuration" {
+				rd.VerifHandleConfiguration()(rec, rq)
+			} else {
+				rd.VerifHandleApplyFlows()(rec, rq)
+			}
+			if rec.Code != 200 {
+				panic(fmt.Sprintf("the preparatory update was answered %d: %s", rec.Code, rec.Body.String()))
+			}
 		}
 		rr.TreeBefore = tree(root)
 		rr.ProbeBefore = probe(rd.VerifStream(), "b")
@@ -679,7 +697,7 @@ func TestCheck(t *testing.T) {
 		}
 		return
 	}
-	r.Rule = "initial disk states {one flow; two flows + quota + path params} x payloads {" + names(pcs) + "} x endpoints {/configuration, /apply_flows} x {no fault, every single file-system fault point k of the whole handler run (backup, clean-up, save, rollback), every single admin-API call answering 500}; plus schedules: 2 probe transactions x one update (3 payloads x 2 endpoints), all interleavings at sync operations with <= 1 (thorough 2) preemptions; non-trivial = runs in which a fault was injected or the payload is refused; distinct = (payload, endpoint, fault)"
+	r.Rule = "initial states {one flow; two flows + quota + path params; no gateway-configuration / user-metrics file yet (payloads bringing one); one update already completed} x payloads {" + names(pcs) + "} x endpoints {/configuration, /apply_flows} x {no fault, every single file-system fault point k of the whole handler run (backup, clean-up, save, rollback), every single admin-API call answering 500}; plus schedules: 2 probe transactions x one update (3 payloads x 2 endpoints), all interleavings at sync operations with <= 1 (thorough 2) preemptions; non-trivial = runs in which a fault was injected or the payload is refused; distinct = (payload, endpoint, fault)"
 	r.Assume("file-system faults are injected at the os calls of config/gateway_file_system.go (Remove, MkdirAll, Create, Write (partial), Open, Stat); a failed Write leaves half of the content behind",
 		"HAProxy admin API = in-process RoundTripper; virtual time", "probe transactions: "+strings.Join(probes, ", "))
 	if r.Parallel(t, 16) {
@@ -688,8 +706,16 @@ func TestCheck(t *testing.T) {
 	}
 	schedules(t, r)
 	idx := 0
-	for initial = 0; initial <= 1; initial++ {
+	for initial = 0; initial <= 3; initial++ {
 		for _, pc := range pcs {
+			if initial == 2 {
+				// only payloads that bring one of the two single files are of interest here
+				_, gw := pc.Payload["gateway_config"]
+				_, me := pc.Payload["metrics"]
+				if !gw && !me {
+					continue
+				}
+			}
 			for _, ep := range []string{"configuration", "apply_flows"} {
 				base := runCase(t, pc, ep, [2]int64{}, 0)
 				type fault struct {
